@@ -399,6 +399,21 @@ impl World {
                 self.sim.parts.push(Part { id, hash: hash_of(inv).to_string(), inv, status: op["status"].as_str().unwrap_or("pending").into(),
                     groupid: num(&op["groupid"], 1), partid: num(&op["partid"], id + 1) });
             }
+            "age_records" => {
+                // wall-clock time passes (e.g. while the plugin is down): every stored Pending attempt becomes `s` seconds older
+                let by = num(&op["s"], 0);
+                for (k, (sv, _g)) in self.sim.datastore.iter_mut() {
+                    if k.last().map(|x| x == "state").unwrap_or(false) && sv.contains("Pending") {
+                        if let Ok(mut v) = serde_json::from_str::<Value>(sv) {
+                            if let Some(at) = v["Pending"]["attempt_time_seconds"].as_u64() {
+                                v["Pending"]["attempt_time_seconds"] = json!(at.saturating_sub(by));
+                                *sv = v.to_string();
+                            }
+                        }
+                    }
+                }
+                self.note(json!({"event": "age_records", "s": by}));
+            }
             "store" => {
                 // initial durable state for invoice `inv`: free | pending | succeeded
                 let inv = num(&op["inv"], 1);
